@@ -25,9 +25,16 @@ DTYPES = {'int8': np.int8, 'int16': np.int16, 'int32': np.int32, 'int64': np.int
           'uint8': np.uint8, 'uint16': np.uint16}
 
 
-def build(form, trajs, dtypes=None):
+def build(form, trajs, dtypes=None, layout=None):
     """Build the container `form` denoting the trajectories `trajs`
-    (list of lists of ints)."""
+    (list of lists of ints). layout='alt': the same values in another memory layout
+    (Fortran-ordered / transposed 2-d arrays, strided 1-d views)."""
+    if layout == 'alt':
+        form = {'arr2': 'arr2f' if len(trajs) % 2 else 'arr2t', 'arr1': 'arr1s', 'loa': 'loas'}.get(form, form)
+        if form == 'arr1s' and not len(trajs[0]):
+            form = 'arr1'
+    elif layout == 'lumped' and form in ('loa', 'obj', 'toa', 'lol'):
+        form = 'lumped'
     def dt(k):
         if dtypes is None:
             return np.int64
@@ -49,7 +56,34 @@ def build(form, trajs, dtypes=None):
     if form == 'obj':
         import msmhelper as mh
         return mh.StateTraj([np.array(t, dtype=dt(k)) for k, t in enumerate(trajs)])
+    # ---- the same values in other memory layouts (views, Fortran order, strides)
+    if form == 'arr2f':       # 2-d, Fortran-contiguous
+        return np.asfortranarray(np.array(trajs, dtype=dt(0)))
+    if form == 'arr2t':       # 2-d, a transposed view of a C array
+        return np.ascontiguousarray(np.array(trajs, dtype=dt(0)).T).T
+    if form == 'arr1s':       # 1-d, a strided view (every second element of a longer buffer)
+        buf = np.zeros(2 * len(trajs[0]), dtype=dt(0))
+        buf[::2] = trajs[0]
+        return buf[::2]
+    if form == 'loas':        # list of strided / reversed-twice views
+        out = []
+        for k, t in enumerate(trajs):
+            buf = np.zeros(2 * len(t) + 1, dtype=dt(k))
+            buf[1::2] = t
+            out.append(buf[1::2])
+        return out
+    if form == 'lumped':      # a LumpedStateTraj whose MACRO trajectories are `trajs`
+        import msmhelper as mh
+        return mh.LumpedStateTraj([np.array(t, dtype=dt(k)) for k, t in enumerate(trajs)], refine(trajs))
     raise ValueError(form)
+
+
+def refine(trajs):
+    """micro trajectories for `trajs` as macro trajectories: every macro label a is split into the
+    micro labels 3a-1000+{0,1,2} (by frame position), so micro and macro alphabets differ in
+    values and in number"""
+    return [np.array([3 * int(v) - 1000 + ((i * 7 + k) % 3 if int(v) % 2 else 0) for i, v in enumerate(t)], dtype=np.int64)
+            for k, t in enumerate(trajs)]
 
 
 def tolists(trajs):
